@@ -64,7 +64,7 @@ impl Method for WMA {
 
 	fn new(length: Self::Params, &value: &Self::Input) -> Result<Self, Error> {
 		match length {
-			0 => Err(Error::WrongMethodParameters),
+			0 | PeriodType::MAX => Err(Error::WrongMethodParameters),
 			length => {
 				let length2 = length as usize;
 				let sum = ((length2 * (length2 + 1)) / 2) as ValueType;
